@@ -28,6 +28,7 @@ import Imeta.Lemmas.ExifField2
 import Imeta.Lemmas.ExifField3
 import Imeta.Lemmas.ExifField4
 import Imeta.Lemmas.ExifField5
+import Imeta.Lemmas.ExifField6
 namespace Imeta.Exif
 open Imeta
 
@@ -735,6 +736,262 @@ theorem C03_make_end_to_end (tb : Tables) (F : Bytes) (buffered : Bool) (h : Hdr
     (hemb : a.isEmbedded = false) (hasc : isASCII a = true) (hpost : ∀ t ∈ post, ¬(t.ifd = ifd0 ∧ t.id = 0x010f)) :
     (r'.ex.make, r'.ex.cameraMake) = makeOf tb (trimNUL (slice F a)) :=
   make_exact (decodeTiff_nested tb F buffered h cnt r' e W hsmall w hroot hrootW hres).2.1 pre post a hsplit h0 hid hemb hasc hpost
+
+/-! The remaining single-writer fields, generated from the same template (Lemmas/ExifField6.lean): the record holds what the
+field's value parser — a pure function of the entry and of its bytes, proved equal to the streaming parser — makes of the
+last such entry and of exactly F[a.off, a.off+a.size). -/
+
+/-- **ModifyDate (IFD0, 0x0132), end to end** -/
+theorem C03_modifyDate_end_to_end (tb : Tables) (F : Bytes) (buffered : Bool) (h : Hdr) (cnt : Nat) (r' : R) (e : Option ErrKind)
+    (W : Tag → Prop) (hsmall : F.length < 2 ^ 32)
+    (w : World F (4 * 1024 * 1024) (if buffered then bufioSize else scratchSize) W)
+    (hroot : DirOK F { off := 0, base := 0, order := h.order, typ := h.firstIfdType, idx := 0 } h.firstIfd cnt (4 * 1024 * 1024)
+      (if buffered then bufioSize else scratchSize) (extent F))
+    (hrootW : ∀ x, IsEntry F { off := 0, base := 0, order := h.order, typ := h.firstIfdType, idx := 0 } h.firstIfd cnt x ∨
+      IsStubEntry F { off := 0, base := 0, order := h.order, typ := h.firstIfdType, idx := 0 } h.firstIfd cnt x → W x)
+    (hres : decodeTiff tb F buffered h = .ok (r', e))
+    (pre post : List Tag) (a : Tag) (hsplit : r'.parsed = pre ++ a :: post) (h0 : a.ifd = ifd0) (hid : a.id = 0x0132)
+    (hpost : ∀ t ∈ post, ¬(t.ifd = ifd0 ∧ t.id = 0x0132)) :
+    parseDateV a (slice F a) none = .ok r'.ex.modifyDate :=
+  modifyDate_exact (decodeTiff_nested tb F buffered h cnt r' e W hsmall w hroot hrootW hres).2.1 pre post a hsplit h0 hid hpost
+
+/-- **LensSpecification (ExifIFD, 0xa432), end to end** -/
+theorem C03_lensInfo_end_to_end (tb : Tables) (F : Bytes) (buffered : Bool) (h : Hdr) (cnt : Nat) (r' : R) (e : Option ErrKind)
+    (W : Tag → Prop) (hsmall : F.length < 2 ^ 32)
+    (w : World F (4 * 1024 * 1024) (if buffered then bufioSize else scratchSize) W)
+    (hroot : DirOK F { off := 0, base := 0, order := h.order, typ := h.firstIfdType, idx := 0 } h.firstIfd cnt (4 * 1024 * 1024)
+      (if buffered then bufioSize else scratchSize) (extent F))
+    (hrootW : ∀ x, IsEntry F { off := 0, base := 0, order := h.order, typ := h.firstIfdType, idx := 0 } h.firstIfd cnt x ∨
+      IsStubEntry F { off := 0, base := 0, order := h.order, typ := h.firstIfdType, idx := 0 } h.firstIfd cnt x → W x)
+    (hres : decodeTiff tb F buffered h = .ok (r', e))
+    (pre post : List Tag) (a : Tag) (hsplit : r'.parsed = pre ++ a :: post) (h0 : a.ifd = exifIFD) (hid : a.id = 0xa432)
+    (hpost : ∀ t ∈ post, ¬(t.ifd = exifIFD ∧ t.id = 0xa432)) :
+    parseLensInfoV a (slice F a) none = .ok r'.ex.lensInfo :=
+  lensInfo_exact (decodeTiff_nested tb F buffered h cnt r' e W hsmall w hroot hrootW hres).2.1 pre post a hsplit h0 hid hpost
+
+/-- **DateTimeOriginal (0x9003), end to end** -/
+theorem C03_dateTimeOriginal_end_to_end (tb : Tables) (F : Bytes) (buffered : Bool) (h : Hdr) (cnt : Nat) (r' : R) (e : Option ErrKind)
+    (W : Tag → Prop) (hsmall : F.length < 2 ^ 32)
+    (w : World F (4 * 1024 * 1024) (if buffered then bufioSize else scratchSize) W)
+    (hroot : DirOK F { off := 0, base := 0, order := h.order, typ := h.firstIfdType, idx := 0 } h.firstIfd cnt (4 * 1024 * 1024)
+      (if buffered then bufioSize else scratchSize) (extent F))
+    (hrootW : ∀ x, IsEntry F { off := 0, base := 0, order := h.order, typ := h.firstIfdType, idx := 0 } h.firstIfd cnt x ∨
+      IsStubEntry F { off := 0, base := 0, order := h.order, typ := h.firstIfdType, idx := 0 } h.firstIfd cnt x → W x)
+    (hres : decodeTiff tb F buffered h = .ok (r', e))
+    (pre post : List Tag) (a : Tag) (hsplit : r'.parsed = pre ++ a :: post) (h0 : a.ifd = exifIFD) (hid : a.id = 0x9003)
+    (hpost : ∀ t ∈ post, ¬(t.ifd = exifIFD ∧ t.id = 0x9003)) :
+    parseDateV a (slice F a) none = .ok r'.ex.dateTimeOriginal :=
+  dateTimeOriginal_exact (decodeTiff_nested tb F buffered h cnt r' e W hsmall w hroot hrootW hres).2.1 pre post a hsplit h0 hid hpost
+
+/-- **DateTimeDigitized (0x9004), end to end** -/
+theorem C03_createDate_end_to_end (tb : Tables) (F : Bytes) (buffered : Bool) (h : Hdr) (cnt : Nat) (r' : R) (e : Option ErrKind)
+    (W : Tag → Prop) (hsmall : F.length < 2 ^ 32)
+    (w : World F (4 * 1024 * 1024) (if buffered then bufioSize else scratchSize) W)
+    (hroot : DirOK F { off := 0, base := 0, order := h.order, typ := h.firstIfdType, idx := 0 } h.firstIfd cnt (4 * 1024 * 1024)
+      (if buffered then bufioSize else scratchSize) (extent F))
+    (hrootW : ∀ x, IsEntry F { off := 0, base := 0, order := h.order, typ := h.firstIfdType, idx := 0 } h.firstIfd cnt x ∨
+      IsStubEntry F { off := 0, base := 0, order := h.order, typ := h.firstIfdType, idx := 0 } h.firstIfd cnt x → W x)
+    (hres : decodeTiff tb F buffered h = .ok (r', e))
+    (pre post : List Tag) (a : Tag) (hsplit : r'.parsed = pre ++ a :: post) (h0 : a.ifd = exifIFD) (hid : a.id = 0x9004)
+    (hpost : ∀ t ∈ post, ¬(t.ifd = exifIFD ∧ t.id = 0x9004)) :
+    parseDateV a (slice F a) none = .ok r'.ex.createDate :=
+  createDate_exact (decodeTiff_nested tb F buffered h cnt r' e W hsmall w hroot hrootW hres).2.1 pre post a hsplit h0 hid hpost
+
+/-- **SubSecTime (0x9290), end to end** -/
+theorem C03_subSec_end_to_end (tb : Tables) (F : Bytes) (buffered : Bool) (h : Hdr) (cnt : Nat) (r' : R) (e : Option ErrKind)
+    (W : Tag → Prop) (hsmall : F.length < 2 ^ 32)
+    (w : World F (4 * 1024 * 1024) (if buffered then bufioSize else scratchSize) W)
+    (hroot : DirOK F { off := 0, base := 0, order := h.order, typ := h.firstIfdType, idx := 0 } h.firstIfd cnt (4 * 1024 * 1024)
+      (if buffered then bufioSize else scratchSize) (extent F))
+    (hrootW : ∀ x, IsEntry F { off := 0, base := 0, order := h.order, typ := h.firstIfdType, idx := 0 } h.firstIfd cnt x ∨
+      IsStubEntry F { off := 0, base := 0, order := h.order, typ := h.firstIfdType, idx := 0 } h.firstIfd cnt x → W x)
+    (hres : decodeTiff tb F buffered h = .ok (r', e))
+    (pre post : List Tag) (a : Tag) (hsplit : r'.parsed = pre ++ a :: post) (h0 : a.ifd = exifIFD) (hid : a.id = 0x9290)
+    (hpost : ∀ t ∈ post, ¬(t.ifd = exifIFD ∧ t.id = 0x9290)) :
+    parseSubSecV a (slice F a) none = .ok r'.ex.subSec :=
+  subSec_exact (decodeTiff_nested tb F buffered h cnt r' e W hsmall w hroot hrootW hres).2.1 pre post a hsplit h0 hid hpost
+
+/-- **SubSecTimeOriginal (0x9291), end to end** -/
+theorem C03_subSecOriginal_end_to_end (tb : Tables) (F : Bytes) (buffered : Bool) (h : Hdr) (cnt : Nat) (r' : R) (e : Option ErrKind)
+    (W : Tag → Prop) (hsmall : F.length < 2 ^ 32)
+    (w : World F (4 * 1024 * 1024) (if buffered then bufioSize else scratchSize) W)
+    (hroot : DirOK F { off := 0, base := 0, order := h.order, typ := h.firstIfdType, idx := 0 } h.firstIfd cnt (4 * 1024 * 1024)
+      (if buffered then bufioSize else scratchSize) (extent F))
+    (hrootW : ∀ x, IsEntry F { off := 0, base := 0, order := h.order, typ := h.firstIfdType, idx := 0 } h.firstIfd cnt x ∨
+      IsStubEntry F { off := 0, base := 0, order := h.order, typ := h.firstIfdType, idx := 0 } h.firstIfd cnt x → W x)
+    (hres : decodeTiff tb F buffered h = .ok (r', e))
+    (pre post : List Tag) (a : Tag) (hsplit : r'.parsed = pre ++ a :: post) (h0 : a.ifd = exifIFD) (hid : a.id = 0x9291)
+    (hpost : ∀ t ∈ post, ¬(t.ifd = exifIFD ∧ t.id = 0x9291)) :
+    parseSubSecV a (slice F a) none = .ok r'.ex.subSecOriginal :=
+  subSecOriginal_exact (decodeTiff_nested tb F buffered h cnt r' e W hsmall w hroot hrootW hres).2.1 pre post a hsplit h0 hid hpost
+
+/-- **SubSecTimeDigitized (0x9292), end to end** -/
+theorem C03_subSecDigitized_end_to_end (tb : Tables) (F : Bytes) (buffered : Bool) (h : Hdr) (cnt : Nat) (r' : R) (e : Option ErrKind)
+    (W : Tag → Prop) (hsmall : F.length < 2 ^ 32)
+    (w : World F (4 * 1024 * 1024) (if buffered then bufioSize else scratchSize) W)
+    (hroot : DirOK F { off := 0, base := 0, order := h.order, typ := h.firstIfdType, idx := 0 } h.firstIfd cnt (4 * 1024 * 1024)
+      (if buffered then bufioSize else scratchSize) (extent F))
+    (hrootW : ∀ x, IsEntry F { off := 0, base := 0, order := h.order, typ := h.firstIfdType, idx := 0 } h.firstIfd cnt x ∨
+      IsStubEntry F { off := 0, base := 0, order := h.order, typ := h.firstIfdType, idx := 0 } h.firstIfd cnt x → W x)
+    (hres : decodeTiff tb F buffered h = .ok (r', e))
+    (pre post : List Tag) (a : Tag) (hsplit : r'.parsed = pre ++ a :: post) (h0 : a.ifd = exifIFD) (hid : a.id = 0x9292)
+    (hpost : ∀ t ∈ post, ¬(t.ifd = exifIFD ∧ t.id = 0x9292)) :
+    parseSubSecV a (slice F a) none = .ok r'.ex.subSecDigitized :=
+  subSecDigitized_exact (decodeTiff_nested tb F buffered h cnt r' e W hsmall w hroot hrootW hres).2.1 pre post a hsplit h0 hid hpost
+
+/-- **OffsetTime (0x9010), end to end** -/
+theorem C03_offsetTime_end_to_end (tb : Tables) (F : Bytes) (buffered : Bool) (h : Hdr) (cnt : Nat) (r' : R) (e : Option ErrKind)
+    (W : Tag → Prop) (hsmall : F.length < 2 ^ 32)
+    (w : World F (4 * 1024 * 1024) (if buffered then bufioSize else scratchSize) W)
+    (hroot : DirOK F { off := 0, base := 0, order := h.order, typ := h.firstIfdType, idx := 0 } h.firstIfd cnt (4 * 1024 * 1024)
+      (if buffered then bufioSize else scratchSize) (extent F))
+    (hrootW : ∀ x, IsEntry F { off := 0, base := 0, order := h.order, typ := h.firstIfdType, idx := 0 } h.firstIfd cnt x ∨
+      IsStubEntry F { off := 0, base := 0, order := h.order, typ := h.firstIfdType, idx := 0 } h.firstIfd cnt x → W x)
+    (hres : decodeTiff tb F buffered h = .ok (r', e))
+    (pre post : List Tag) (a : Tag) (hsplit : r'.parsed = pre ++ a :: post) (h0 : a.ifd = exifIFD) (hid : a.id = 0x9010)
+    (hpost : ∀ t ∈ post, ¬(t.ifd = exifIFD ∧ t.id = 0x9010)) :
+    parseOffsetTimeV a (slice F a) none = .ok r'.ex.offsetTime :=
+  offsetTime_exact (decodeTiff_nested tb F buffered h cnt r' e W hsmall w hroot hrootW hres).2.1 pre post a hsplit h0 hid hpost
+
+/-- **OffsetTimeOriginal (0x9011), end to end** -/
+theorem C03_offsetTimeOriginal_end_to_end (tb : Tables) (F : Bytes) (buffered : Bool) (h : Hdr) (cnt : Nat) (r' : R) (e : Option ErrKind)
+    (W : Tag → Prop) (hsmall : F.length < 2 ^ 32)
+    (w : World F (4 * 1024 * 1024) (if buffered then bufioSize else scratchSize) W)
+    (hroot : DirOK F { off := 0, base := 0, order := h.order, typ := h.firstIfdType, idx := 0 } h.firstIfd cnt (4 * 1024 * 1024)
+      (if buffered then bufioSize else scratchSize) (extent F))
+    (hrootW : ∀ x, IsEntry F { off := 0, base := 0, order := h.order, typ := h.firstIfdType, idx := 0 } h.firstIfd cnt x ∨
+      IsStubEntry F { off := 0, base := 0, order := h.order, typ := h.firstIfdType, idx := 0 } h.firstIfd cnt x → W x)
+    (hres : decodeTiff tb F buffered h = .ok (r', e))
+    (pre post : List Tag) (a : Tag) (hsplit : r'.parsed = pre ++ a :: post) (h0 : a.ifd = exifIFD) (hid : a.id = 0x9011)
+    (hpost : ∀ t ∈ post, ¬(t.ifd = exifIFD ∧ t.id = 0x9011)) :
+    parseOffsetTimeV a (slice F a) none = .ok r'.ex.offsetTimeOriginal :=
+  offsetTimeOriginal_exact (decodeTiff_nested tb F buffered h cnt r' e W hsmall w hroot hrootW hres).2.1 pre post a hsplit h0 hid hpost
+
+/-- **OffsetTimeDigitized (0x9012), end to end** -/
+theorem C03_offsetTimeDigitized_end_to_end (tb : Tables) (F : Bytes) (buffered : Bool) (h : Hdr) (cnt : Nat) (r' : R) (e : Option ErrKind)
+    (W : Tag → Prop) (hsmall : F.length < 2 ^ 32)
+    (w : World F (4 * 1024 * 1024) (if buffered then bufioSize else scratchSize) W)
+    (hroot : DirOK F { off := 0, base := 0, order := h.order, typ := h.firstIfdType, idx := 0 } h.firstIfd cnt (4 * 1024 * 1024)
+      (if buffered then bufioSize else scratchSize) (extent F))
+    (hrootW : ∀ x, IsEntry F { off := 0, base := 0, order := h.order, typ := h.firstIfdType, idx := 0 } h.firstIfd cnt x ∨
+      IsStubEntry F { off := 0, base := 0, order := h.order, typ := h.firstIfdType, idx := 0 } h.firstIfd cnt x → W x)
+    (hres : decodeTiff tb F buffered h = .ok (r', e))
+    (pre post : List Tag) (a : Tag) (hsplit : r'.parsed = pre ++ a :: post) (h0 : a.ifd = exifIFD) (hid : a.id = 0x9012)
+    (hpost : ∀ t ∈ post, ¬(t.ifd = exifIFD ∧ t.id = 0x9012)) :
+    parseOffsetTimeV a (slice F a) none = .ok r'.ex.offsetTimeDigitized :=
+  offsetTimeDigitized_exact (decodeTiff_nested tb F buffered h cnt r' e W hsmall w hroot hrootW hres).2.1 pre post a hsplit h0 hid hpost
+
+/-- **GPSAltitude (GPS IFD, 6), end to end** -/
+theorem C03_gpsAlt_end_to_end (tb : Tables) (F : Bytes) (buffered : Bool) (h : Hdr) (cnt : Nat) (r' : R) (e : Option ErrKind)
+    (W : Tag → Prop) (hsmall : F.length < 2 ^ 32)
+    (w : World F (4 * 1024 * 1024) (if buffered then bufioSize else scratchSize) W)
+    (hroot : DirOK F { off := 0, base := 0, order := h.order, typ := h.firstIfdType, idx := 0 } h.firstIfd cnt (4 * 1024 * 1024)
+      (if buffered then bufioSize else scratchSize) (extent F))
+    (hrootW : ∀ x, IsEntry F { off := 0, base := 0, order := h.order, typ := h.firstIfdType, idx := 0 } h.firstIfd cnt x ∨
+      IsStubEntry F { off := 0, base := 0, order := h.order, typ := h.firstIfdType, idx := 0 } h.firstIfd cnt x → W x)
+    (hres : decodeTiff tb F buffered h = .ok (r', e))
+    (pre post : List Tag) (a : Tag) (hsplit : r'.parsed = pre ++ a :: post) (h0 : a.ifd = gpsIFD) (hid : a.id = 0x0006)
+    (hpost : ∀ t ∈ post, ¬(t.ifd = gpsIFD ∧ t.id = 0x0006)) :
+    parseGPSAltV a (slice F a) none = .ok r'.ex.gpsAlt :=
+  gpsAlt_exact (decodeTiff_nested tb F buffered h cnt r' e W hsmall w hroot hrootW hres).2.1 pre post a hsplit h0 hid hpost
+
+/-- **GPSLatitude (2), end to end** -/
+theorem C03_gpsLat_end_to_end (tb : Tables) (F : Bytes) (buffered : Bool) (h : Hdr) (cnt : Nat) (r' : R) (e : Option ErrKind)
+    (W : Tag → Prop) (hsmall : F.length < 2 ^ 32)
+    (w : World F (4 * 1024 * 1024) (if buffered then bufioSize else scratchSize) W)
+    (hroot : DirOK F { off := 0, base := 0, order := h.order, typ := h.firstIfdType, idx := 0 } h.firstIfd cnt (4 * 1024 * 1024)
+      (if buffered then bufioSize else scratchSize) (extent F))
+    (hrootW : ∀ x, IsEntry F { off := 0, base := 0, order := h.order, typ := h.firstIfdType, idx := 0 } h.firstIfd cnt x ∨
+      IsStubEntry F { off := 0, base := 0, order := h.order, typ := h.firstIfdType, idx := 0 } h.firstIfd cnt x → W x)
+    (hres : decodeTiff tb F buffered h = .ok (r', e))
+    (pre post : List Tag) (a : Tag) (hsplit : r'.parsed = pre ++ a :: post) (h0 : a.ifd = gpsIFD) (hid : a.id = 0x0002)
+    (hpost : ∀ t ∈ post, ¬(t.ifd = gpsIFD ∧ t.id = 0x0002)) :
+    parseGPSCoordV a (slice F a) none = .ok r'.ex.gpsLat :=
+  gpsLat_exact (decodeTiff_nested tb F buffered h cnt r' e W hsmall w hroot hrootW hres).2.1 pre post a hsplit h0 hid hpost
+
+/-- **GPSLongitude (4), end to end** -/
+theorem C03_gpsLng_end_to_end (tb : Tables) (F : Bytes) (buffered : Bool) (h : Hdr) (cnt : Nat) (r' : R) (e : Option ErrKind)
+    (W : Tag → Prop) (hsmall : F.length < 2 ^ 32)
+    (w : World F (4 * 1024 * 1024) (if buffered then bufioSize else scratchSize) W)
+    (hroot : DirOK F { off := 0, base := 0, order := h.order, typ := h.firstIfdType, idx := 0 } h.firstIfd cnt (4 * 1024 * 1024)
+      (if buffered then bufioSize else scratchSize) (extent F))
+    (hrootW : ∀ x, IsEntry F { off := 0, base := 0, order := h.order, typ := h.firstIfdType, idx := 0 } h.firstIfd cnt x ∨
+      IsStubEntry F { off := 0, base := 0, order := h.order, typ := h.firstIfdType, idx := 0 } h.firstIfd cnt x → W x)
+    (hres : decodeTiff tb F buffered h = .ok (r', e))
+    (pre post : List Tag) (a : Tag) (hsplit : r'.parsed = pre ++ a :: post) (h0 : a.ifd = gpsIFD) (hid : a.id = 0x0004)
+    (hpost : ∀ t ∈ post, ¬(t.ifd = gpsIFD ∧ t.id = 0x0004)) :
+    parseGPSCoordV a (slice F a) none = .ok r'.ex.gpsLng :=
+  gpsLng_exact (decodeTiff_nested tb F buffered h cnt r' e W hsmall w hroot hrootW hres).2.1 pre post a hsplit h0 hid hpost
+
+/-- **GPSTimeStamp (7), end to end** -/
+theorem C03_gpsTime_end_to_end (tb : Tables) (F : Bytes) (buffered : Bool) (h : Hdr) (cnt : Nat) (r' : R) (e : Option ErrKind)
+    (W : Tag → Prop) (hsmall : F.length < 2 ^ 32)
+    (w : World F (4 * 1024 * 1024) (if buffered then bufioSize else scratchSize) W)
+    (hroot : DirOK F { off := 0, base := 0, order := h.order, typ := h.firstIfdType, idx := 0 } h.firstIfd cnt (4 * 1024 * 1024)
+      (if buffered then bufioSize else scratchSize) (extent F))
+    (hrootW : ∀ x, IsEntry F { off := 0, base := 0, order := h.order, typ := h.firstIfdType, idx := 0 } h.firstIfd cnt x ∨
+      IsStubEntry F { off := 0, base := 0, order := h.order, typ := h.firstIfdType, idx := 0 } h.firstIfd cnt x → W x)
+    (hres : decodeTiff tb F buffered h = .ok (r', e))
+    (pre post : List Tag) (a : Tag) (hsplit : r'.parsed = pre ++ a :: post) (h0 : a.ifd = gpsIFD) (hid : a.id = 0x0007)
+    (hpost : ∀ t ∈ post, ¬(t.ifd = gpsIFD ∧ t.id = 0x0007)) :
+    parseGPSTimeV a (slice F a) none = .ok r'.ex.gpsTime :=
+  gpsTime_exact (decodeTiff_nested tb F buffered h cnt r' e W hsmall w hroot hrootW hres).2.1 pre post a hsplit h0 hid hpost
+
+/-- **GPSDateStamp (0x1d), end to end** -/
+theorem C03_gpsDate_end_to_end (tb : Tables) (F : Bytes) (buffered : Bool) (h : Hdr) (cnt : Nat) (r' : R) (e : Option ErrKind)
+    (W : Tag → Prop) (hsmall : F.length < 2 ^ 32)
+    (w : World F (4 * 1024 * 1024) (if buffered then bufioSize else scratchSize) W)
+    (hroot : DirOK F { off := 0, base := 0, order := h.order, typ := h.firstIfdType, idx := 0 } h.firstIfd cnt (4 * 1024 * 1024)
+      (if buffered then bufioSize else scratchSize) (extent F))
+    (hrootW : ∀ x, IsEntry F { off := 0, base := 0, order := h.order, typ := h.firstIfdType, idx := 0 } h.firstIfd cnt x ∨
+      IsStubEntry F { off := 0, base := 0, order := h.order, typ := h.firstIfdType, idx := 0 } h.firstIfd cnt x → W x)
+    (hres : decodeTiff tb F buffered h = .ok (r', e))
+    (pre post : List Tag) (a : Tag) (hsplit : r'.parsed = pre ++ a :: post) (h0 : a.ifd = gpsIFD) (hid : a.id = 0x001d)
+    (hpost : ∀ t ∈ post, ¬(t.ifd = gpsIFD ∧ t.id = 0x001d)) :
+    parseGPSDateV a (slice F a) none = .ok r'.ex.gpsDate :=
+  gpsDate_exact (decodeTiff_nested tb F buffered h cnt r' e W hsmall w hroot hrootW hres).2.1 pre post a hsplit h0 hid hpost
+
+/-- **GPSAltitudeRef (5), end to end** -/
+theorem C03_gpsAltRef_end_to_end (tb : Tables) (F : Bytes) (buffered : Bool) (h : Hdr) (cnt : Nat) (r' : R) (e : Option ErrKind)
+    (W : Tag → Prop) (hsmall : F.length < 2 ^ 32)
+    (w : World F (4 * 1024 * 1024) (if buffered then bufioSize else scratchSize) W)
+    (hroot : DirOK F { off := 0, base := 0, order := h.order, typ := h.firstIfdType, idx := 0 } h.firstIfd cnt (4 * 1024 * 1024)
+      (if buffered then bufioSize else scratchSize) (extent F))
+    (hrootW : ∀ x, IsEntry F { off := 0, base := 0, order := h.order, typ := h.firstIfdType, idx := 0 } h.firstIfd cnt x ∨
+      IsStubEntry F { off := 0, base := 0, order := h.order, typ := h.firstIfdType, idx := 0 } h.firstIfd cnt x → W x)
+    (hres : decodeTiff tb F buffered h = .ok (r', e))
+    (pre post : List Tag) (a : Tag) (hsplit : r'.parsed = pre ++ a :: post) (h0 : a.ifd = gpsIFD) (hid : a.id = 0x0005)
+    (hpost : ∀ t ∈ post, ¬(t.ifd = gpsIFD ∧ t.id = 0x0005)) :
+    r'.ex.gpsAltRef = parseGPSRef a :=
+  gpsAltRef_exact (decodeTiff_nested tb F buffered h cnt r' e W hsmall w hroot hrootW hres).2.1 pre post a hsplit h0 hid hpost
+
+/-- **GPSLatitudeRef (1), end to end** -/
+theorem C03_gpsLatRef_end_to_end (tb : Tables) (F : Bytes) (buffered : Bool) (h : Hdr) (cnt : Nat) (r' : R) (e : Option ErrKind)
+    (W : Tag → Prop) (hsmall : F.length < 2 ^ 32)
+    (w : World F (4 * 1024 * 1024) (if buffered then bufioSize else scratchSize) W)
+    (hroot : DirOK F { off := 0, base := 0, order := h.order, typ := h.firstIfdType, idx := 0 } h.firstIfd cnt (4 * 1024 * 1024)
+      (if buffered then bufioSize else scratchSize) (extent F))
+    (hrootW : ∀ x, IsEntry F { off := 0, base := 0, order := h.order, typ := h.firstIfdType, idx := 0 } h.firstIfd cnt x ∨
+      IsStubEntry F { off := 0, base := 0, order := h.order, typ := h.firstIfdType, idx := 0 } h.firstIfd cnt x → W x)
+    (hres : decodeTiff tb F buffered h = .ok (r', e))
+    (pre post : List Tag) (a : Tag) (hsplit : r'.parsed = pre ++ a :: post) (h0 : a.ifd = gpsIFD) (hid : a.id = 0x0001)
+    (hpost : ∀ t ∈ post, ¬(t.ifd = gpsIFD ∧ t.id = 0x0001)) :
+    r'.ex.gpsLatRef = parseGPSRef a :=
+  gpsLatRef_exact (decodeTiff_nested tb F buffered h cnt r' e W hsmall w hroot hrootW hres).2.1 pre post a hsplit h0 hid hpost
+
+/-- **GPSLongitudeRef (3), end to end** -/
+theorem C03_gpsLngRef_end_to_end (tb : Tables) (F : Bytes) (buffered : Bool) (h : Hdr) (cnt : Nat) (r' : R) (e : Option ErrKind)
+    (W : Tag → Prop) (hsmall : F.length < 2 ^ 32)
+    (w : World F (4 * 1024 * 1024) (if buffered then bufioSize else scratchSize) W)
+    (hroot : DirOK F { off := 0, base := 0, order := h.order, typ := h.firstIfdType, idx := 0 } h.firstIfd cnt (4 * 1024 * 1024)
+      (if buffered then bufioSize else scratchSize) (extent F))
+    (hrootW : ∀ x, IsEntry F { off := 0, base := 0, order := h.order, typ := h.firstIfdType, idx := 0 } h.firstIfd cnt x ∨
+      IsStubEntry F { off := 0, base := 0, order := h.order, typ := h.firstIfdType, idx := 0 } h.firstIfd cnt x → W x)
+    (hres : decodeTiff tb F buffered h = .ok (r', e))
+    (pre post : List Tag) (a : Tag) (hsplit : r'.parsed = pre ++ a :: post) (h0 : a.ifd = gpsIFD) (hid : a.id = 0x0003)
+    (hpost : ∀ t ∈ post, ¬(t.ifd = gpsIFD ∧ t.id = 0x0003)) :
+    r'.ex.gpsLngRef = parseGPSRef a :=
+  gpsLngRef_exact (decodeTiff_nested tb F buffered h cnt r' e W hsmall w hroot hrootW hres).2.1 pre post a hsplit h0 hid hpost
 
 /-- on the sample file, through the theorem (not by running the model): LensModel is "RF 50mm" -/
 example (r' : R) (e : Option ErrKind)
